@@ -9,6 +9,8 @@ pub const NAMES: &[(i64, &str)] = &[
   (0, "alg"), (1, "b64"), (2, "crit"), (3, "jku"), (4, "jwk"), (5, "kid"), (6, "x5u"), (7, "x5c"), (8, "x5t"), (9, "x5t#S256"),
   (10, "typ"), (11, "cty"), (12, "url"), (13, "nonce"), (14, "enc"), (15, "zip"), (16, "epk"), (17, "apu"), (18, "apv"), (19, "iv"),
   (20, "tag"), (21, "p2s"), (22, "p2c"), (23, "x5t#s256"), (24, "exp"), (100, "x-unknown"), (101, "x-a"), (102, "x-b"),
+  // case variants of registered / implemented names are OTHER names (header parameter names are case sensitive)
+  (103, "B64"), (104, "Crit"), (105, "ALG"), (106, "KID"),
 ];
 pub fn name(id: i64) -> &'static str { NAMES.iter().find(|(i, _)| *i == id).map(|(_, n)| *n).unwrap_or("x-other") }
 
@@ -195,9 +197,9 @@ pub fn exec(case: &[i64]) -> Outcome {
 fn case(entry: i64, fb: i64, p: Option<&H>, u: Option<&H>) -> Vec<i64> { let mut c = vec![entry, fb]; put_hdr(&mut c, p); put_hdr(&mut c, u); c }
 
 pub fn gen(rng: &mut Rng, thorough: bool, sink: &mut Sink) {
-  let crits: Vec<Option<Vec<i64>>> = vec![None, Some(vec![]), Some(vec![1]), Some(vec![1, 1]), Some(vec![0]), Some(vec![24]), Some(vec![100]), Some(vec![9]), Some(vec![1, 5]), Some(vec![12]), Some(vec![23])];
+  let crits: Vec<Option<Vec<i64>>> = vec![None, Some(vec![]), Some(vec![1]), Some(vec![1, 1]), Some(vec![0]), Some(vec![24]), Some(vec![100]), Some(vec![9]), Some(vec![1, 5]), Some(vec![12]), Some(vec![23]), Some(vec![103]), Some(vec![1, 103]), Some(vec![106])];
   let mut ps: Vec<Option<H>> = vec![None];
-  for alg in [false, true] { for b64 in [None, Some(true), Some(false)] { for crit in &crits { for common in [vec![], vec![5]] { for custom in [None, Some(vec![100]), Some(vec![101])] {
+  for alg in [false, true] { for b64 in [None, Some(true), Some(false)] { for crit in &crits { for common in [vec![], vec![5]] { for custom in [None, Some(vec![100]), Some(vec![101]), Some(vec![103]), Some(vec![103, 106])] {
     ps.push(Some(H { alg, b64, crit: crit.clone(), common: common.clone(), custom: custom.clone() }));
   } } } } }
   let mut us: Vec<Option<H>> = vec![None];
